@@ -47,14 +47,10 @@ pub enum ErrorKind {
 impl StdError for Error {}
 
 impl fmt::Display for Error {
+    /// constant text: error messages are never part of a property, and formatting the variant
+    /// (Debug derive, dyn Write) dominates symbolic execution of every error path
     fn fmt(&self, f: &mut fmt::Formatter) -> fmt::Result {
-        match &*self.0 {
-            ErrorKind::MissingRequiredClaim(c) => write!(f, "Missing required claim: {}", c),
-            ErrorKind::InvalidRsaKey(msg) => write!(f, "RSA key invalid: {}", msg),
-            ErrorKind::Json(err) => write!(f, "JSON error: {}", err),
-            ErrorKind::Utf8(err) => write!(f, "UTF-8 error: {}", err),
-            _ => write!(f, "{:?}", self.0),
-        }
+        f.write_str("jsonwebtoken error")
     }
 }
 
